@@ -375,7 +375,7 @@ def parseCfg (loc style ex shape name : String) : Option Cfg :=
   | some l, some st, some sh => some ⟨l, st, ex == "true", sh, hx name⟩
   | _, _, _ => none
 
-/-- `admit <loc> <style> <explode> <shape>`; styles outside the model (spaceDelimited) are never admitted -/
+/-- `admitcfg <loc> <style> <explode> <shape>`; styles outside the model (spaceDelimited) are never admitted -/
 def admitLine (line : String) : String :=
   match line.splitOn " " with
   | [loc, style, ex, shape] =>
